@@ -210,3 +210,16 @@ MANIFEST_TEXT['C13'] = (
  "Machine-checked for every program and every system t (closed invariant of every interpreter step, hence of every recursion pattern and sequence of trees): the (Local, captured) pairs logged by the runs of t are (0,0), (1,1), ..., (n-1,n-1) in order and, while the state exists, both stored counters equal n — the state is created once with (0,0), advanced only by t's own body, never reset, re-created or touched by another system's run; the body logs exactly the stored pair (proved-unreachable assertion) and the callback is never missing when a command runs it. Tied to /repo by differential runs comparing the Local and captured counters printed by every run of every system and the drop of each system's state, plus the m_state monitor.",
  "Trusted: Coq kernel; model faithfulness (differential); Bevy Local/closure-capture semantics as modelled. Partial: exactly-once drop of the state is correspondence + monitor only.",
  "Coq proof (closed per-system invariant over a ghost run history, proved-unreachable assertion) + model/implementation correspondence + monitor", "DESIGN.md §5 C13")
+
+PROPS['C05'] = P(
+    ['unheard_broadcast_dropped_at_once_partial', 'unheard_entity_event_dropped_at_once_partial', 'counter_starts_at_number_of_readers_partial',
+     'entity_event_counter_starts_at_number_of_readers_partial', 'payload_kept_while_readers_remain_partial',
+     'entity_event_payload_kept_while_readers_remain_partial', 'last_reader_releases_partial', 'system_event_data_released_by_cleanup_partial',
+     'one_decrement_per_cleanup_partial', 'skipped_reader_still_cleans_up_partial', 'no_reader_is_lost_partial'],
+    ['stale', 'recursion', 'lifetime', 'mixed'], 'payloads', determined=False,
+    assumes=['PARTIAL: the theorems cover every step of the release protocol for all states (initial count, one decrement per cleanup, release at zero, abort path, setup never fails) but not the global count over a whole tree — that every queued reaction command reaches its cleanup exactly once, so the payload is dropped exactly once, after the last scheduled reader and not before. The global claim rests on the correspondence (every payload drop is a compared log line; the number of live data entities is compared after every top-level op) and on the m_payloads monitor',
+             'the data-entity spawn (CSpawnData) is a separate deferred command, as in the crate'])
+MANIFEST_TEXT['C05'] = (
+ "Partial proof. Machine-checked for all states: an unheard broadcast / entity event drops its payload at once and creates no bookkeeping entity or command; otherwise the counter of the fresh data entity equals the number of reaction commands queued behind it; every cleanup performs exactly one decrement, which leaves entity and payload untouched while the counter stays positive and despawns the entity — dropping the payload — when it reaches zero; the cleanup of a system-event command despawns its data entity; a skipped (aborted) reader still runs setup and cleanup and setup never fails. The global counting argument (each scheduled reader reaches its cleanup exactly once, so release happens exactly after the last one and no entity outlives the tree) is not a theorem: it is checked by differential runs comparing every payload drop position and the number of live data entities after every top-level op (stale profile: listeners revoked, despawned or missing between scheduling and running), plus the m_payloads monitor.",
+ "Trusted: Coq kernel; model faithfulness (differential); Bevy semantics as modelled. Partial: the exactly-once / not-before-the-last-reader claim over whole trees is correspondence + monitor.",
+ "Coq proof of the step-level protocol (partial) + model/implementation correspondence on drop positions and data-entity counts + monitor", "DESIGN.md §5 C05")
